@@ -9,3 +9,8 @@ func (nc *netConn) RemoteAddr() net.Addr {
 func (nc *netConn) LocalAddr() net.Addr {
 	return websocketAddr{}
 }
+
+// closeConn closes the connection after a deadline fired during an active call.
+func (nc *netConn) closeConn() {
+	nc.c.CloseNow()
+}
